@@ -144,6 +144,30 @@ class MakeZipProducer(Producer):
         return zip_problem(os.path.join(sbx, "out", "collection.zip"), previous, self.old)
 
 
+class ZipBuilderProducer(MakeZipProducer):
+    """the mw-zip command's own path: ZipBuilder.build (environment creation and the fetch are stubbed, everything that touches
+    the output path is real)"""
+    name = "zip_builder"
+
+    def run(self, sbx):
+        from mwlib.apps import buildzip
+
+        def stub_make_nuwiki(fsdir, metabook, wiki_options, pod_client, status):
+            write_tree(fsdir)
+
+        class Env:
+            metabook = object()
+
+        buildzip.make_nuwiki = stub_make_nuwiki
+        buildzip.make_wiki_env_from_options = lambda metabook, wiki_options: Env()
+        cfg = buildzip.BuildConfig(output=os.path.join(sbx, "out", "collection.zip"), posturl=None, getposturl=0, keep_tmpfiles=False, status_file=None,
+                                   config=None, imagesize=800, metabook=None, collectionpage=None, noimages=False, logfile=None, username=None,
+                                   password=None, domain=None, title=None, subtitle=None, editor=None, script_extension=".php")
+        res = buildzip.ZipBuilder(cfg).build(None)
+        if not res.success:
+            raise res.error or RuntimeError("build failed")
+
+
 class CreateZipProducer(Producer):
     name = "create_zip"
 
@@ -232,7 +256,7 @@ class DownloadProducer(Producer):
         return None
 
 
-PRODUCERS = {p.name: p for p in (StatusProducer(), MakeZipProducer(), CreateZipProducer(), DownloadProducer())}
+PRODUCERS = {p.name: p for p in (StatusProducer(), MakeZipProducer(), ZipBuilderProducer(), CreateZipProducer(), DownloadProducer())}
 
 
 def add_render_producer():
@@ -291,7 +315,7 @@ def record(prod, previous):
 class C20(InputProp):
     id = "C20"
     level = "fault_enumeration"
-    rule = ("for each producer history (status x3 dumps, make_zip, create_zip, download_to_file, render main; each with and without a "
+    rule = ("for each producer history (status x3 dumps, make_zip, ZipBuilder.build (the mw-zip path), create_zip, download_to_file, render main; each with and without a "
             "complete previous version) the file-system operations are recorded, then the process is killed before EVERY operation "
             "(crash), after half of every write (torn), every operation fails once with ENOSPC and EIO (error), the disk fills up inside every write (short count, then ENOSPC for good), and for the small "
             "producers every (error at k1, crash at k2>k1) pair and every (crash of a first run at k1, crash of a second run in the same directory at k2 / completion) pair; non-trivial/distinct = distinct (producer, state of the published path) outcomes")
